@@ -1497,10 +1497,8 @@ class SpaceManager(SharedSpaceOperations):
         # in any of its sub spaces. References defined in sub spaces
         # keep overriding the new one.
         for subspace in self._get_subs(space, skip_self=False):
-            if name in subspace.namespace:
-                if not isinstance(
-                        subspace._namespace.fresh[name], ReferenceImpl):
-                    raise ValueError("Cannot create reference '%s'" % name)
+            if name in subspace.cells or name in subspace.named_spaces:
+                raise ValueError("Cannot create reference '%s'" % name)
 
         self._check_subs_relrefs(space, name, value, refmode)
         result = space.on_create_ref(name, value, is_derived=False,
